@@ -94,7 +94,9 @@ PROPS["C20"] = dict(
 POS_RULE = ("positions = the 35-position corpus (perft suites, en-passant pins/shields, castling, promotion races, mates, 100-ply clock) "
             "+ seeded legal playouts from corpus positions with move choice biased to captures, checks, double steps, en passant, castling and "
             "promotions + sparse random placements rendered as FEN (kings, up to 10/28 men, consistent rights and en-passant markers) filtered by the "
-            "implementation's parser and played on; distinct = distinct observation lines; the DIST record in `distribution` counts checks, double "
+            "implementation's parser and played on + the sparse family (both kings + 1..6 men, kings and rooks often at home WITH the rights, pawns near the "
+            "promotion / double-step / e.p. ranks, e.p. markers, half-move clocks at 0/49/98/99/100) with EVERY legal move played and the successor examined; "
+            "distinct = distinct observation lines; the DIST record in `distribution` counts checks, double "
             "checks, pins, markers, available e.p. captures/castles/promotions, mates, stalemates")
 CORE_TRUST = ["model/Board.v, MoveGen.v, Apply.v, Fen.v are hand transcriptions of chess-movegen/src/{lib,raw,castle_rights,iter,iter/pieces,fen}.rs; "
               "table accessors are replaced in the model by the coordinate definitions they are proved equal to (C08, C09)",
@@ -103,7 +105,8 @@ CORE_TRUST = ["model/Board.v, MoveGen.v, Apply.v, Fen.v are hand transcriptions 
 
 
 def pos_jobs(ctx, nq, nt, moves, checked, lgq, lgt, families=True):
-    jobs = [dict(sub=["positions", q(ctx, nq, nt), moves, checked, q(ctx, lgq, lgt)], shards=16, timeout=3000)]
+    jobs = [dict(sub=["positions", q(ctx, nq, nt), moves, checked, q(ctx, lgq, lgt)], shards=16, timeout=3000),
+            dict(sub=["sparsefamily", q(ctx, 250, 6000)], shards=16, timeout=3000)]
     if families:
         jobs.append(dict(sub=["epfamily", q(ctx, 40, 1)], shards=q(ctx, 1, 8), timeout=3000))
         jobs.append(dict(sub=["pinfamily", q(ctx, 64, 2)], shards=16, timeout=3000))
